@@ -36,7 +36,7 @@ Extraction "model"
   c17_synack_ok c17_fin_after_data_ok c17_fin_after_data_noerr c17_fin_number_step_ok c17_fin_seq_ok c17_peer_fin_ok
   c17_reset_ok c17_reset_trace_ok c03_ready_closed_ok c03_no_hang_ok c03_after_death_ok
   c05_window_ok c05_zero_window_ok c05_rto_single_ok c05_monitor_ok c05_zero_window_strict c05_d16_class
-  c06_backoff_ok c06_cap_ok c06_emitted_live_ok c06_fast_retx_ok c06_stable_plen_ok c06_joint_ok
+  c06_backoff_ok c06_cap_ok c06_emitted_live_ok c06_fast_retx_ok c06_stable_plen_ok c06_joint_ok c06_rp_exit_ok
   ACK_DELAY IMMEDIATE_ACK_EVERY_RMSS
   c07_immediate_ok c07_pre_monitor c07_delayed_ok c07_fires_ok c07_idle_silent_partial c07_window_update_ok
   c18_nagle_ok c18_pre_monitor
